@@ -85,18 +85,18 @@ def check_vector(v):
     nt = [json.dumps([fmt, v["picks"], pieces])] if nontrivial else []
     tags0 = {"format": fmt, "append": -2 in pieces, "empty_piece": 0 in pieces, "header": v["header"], "ncalls": len([p for p in pieces if p >= 0])}
 
-    def source_table():
+    def source_table(lazy=None):
         if v["header"]:
             # a table that carries a header: read it from a canonical file with that header
             src = os.path.join(d, "src" + suffix)
             hdr = "".join(l + "\n" for l in ["##fileformat=VCFv4.2", "#CHROM\tPOS\tID\tREF\tALT\tQUAL\tFILTER\tINFO"])
             with open(src, "wb") as f:
                 f.write(hdr.encode() + want[len(hdr):] if want.startswith(hdr.encode()) else hdr.encode() + want)
-            return bnp.open(src, **kw).read()
+            return bnp.open(src, lazy=lazy, **kw).read()
         return _table(fmt, rows)
 
     def run(target_kind):
-        t = source_table()
+        t = source_table(lazy=False if target_kind == "plain-eager" else None)
         path = os.path.join(d, "out_%s%s%s" % (target_kind, suffix, ".gz" if target_kind == "gzip" else ""))
         if os.path.exists(path):
             os.remove(path)
@@ -144,7 +144,7 @@ def check_vector(v):
             return {"n": n, "nt": nt, "bad": bad}
         default_header = base[1][:len(base[1]) - len(want)]
         want = default_header + want
-    for kind in ("plain", "gzip", "stream") + (("suffix-only",) if fmt in ("bed6", "bed12") else ()):
+    for kind in ("plain", "gzip", "stream") + (("suffix-only",) if fmt in ("bed6", "bed12") else ()) + (("plain-eager",) if v["header"] else ()):
         if kind == "stream" and (-2 in pieces):
             continue
         o = outcome(run, kind)
